@@ -21,8 +21,13 @@ def vocab_v1():
     return V1
 
 
-def coq_tbl(strings):
-    return "[" + "; ".join("(%s, %d)" % ("[" + ";".join(str(x) for x in s) + "]", i) for i, s in enumerate(strings)) + "]"
+def coq_tbl(words):
+    """word list -> the model's table (what dict(zip(words, range)) keeps)"""
+    return coq_pairs(table_of(words))
+
+
+def coq_pairs(pairs):
+    return "[" + "; ".join("(%s, %d)" % ("[" + ";".join(str(x) for x in s) + "]", i) for s, i in pairs) + "]"
 
 
 def run(ctx):
@@ -49,6 +54,7 @@ def run(ctx):
     if not ok:
         model_ok, _ = ctx.coq_build(["lib/Obj.vo"])
 
+    del COUNTER_CASES[:]
     coq_cases = []      # (scoped, n, terms, vocab strings or None, bytes)
     switch_cases = []   # (tbl0, n, terms1, tbl1, terms2, bytes)
 
@@ -73,7 +79,8 @@ def run(ctx):
     for i in range(ngraphs):
         size = rng.choice([1, 2, 3, 4, 6, 8, 12, 16, 24] if ctx.tier != "thorough" else [1, 2, 4, 8, 16, 32, 64, 100])
         g = I.gen_graph(rng, size, maxk)
-        voc = vocab_v1() if rng.random() < 0.35 else None
+        r_ = rng.random()
+        voc = vocab_v1() if r_ < 0.3 else (random_words(rng) or None) if r_ < 0.45 else None
         roundtrip_case(ctx, I, "gen%d" % i, [g], voc, coq_cases)
     # integers around every boundary, one by one (cheap, exhaustive over the boundary list)
     ints = I.int_boundaries(1024)
@@ -84,12 +91,24 @@ def run(ctx):
     roundtrip_case(ctx, I, "decimals", [[decimal.Decimal(s) for s in I.DECIMALS]], None, coq_cases)
 
     # ---- 4. vocabulary replaced in the middle of the stream
+    for name, objs, wls, initial in switch_family(I):
+        switch_case(ctx, I, name, switch_cases, objs, wls, initial)
     for i in range(ctx.n(40, 400)):
-        switch_case(ctx, I, i, switch_cases)
+        switch_case(ctx, I, "switch%d" % i, switch_cases)
 
     # ---- 5. calls over a Broker pair: sharing inside one call, never between two calls
     for i in range(ctx.n(25, 300)):
-        call_case(ctx, I, "call%d" % i, random_argsets(I, rng), coq_cases, vi=1 if rng.random() < 0.5 else None)
+        pres = ()
+        if rng.random() < 0.5:
+            allp = rejected_preludes(I, rng)
+            pres = tuple(rng.choice(allp) for _ in range(rng.choice([1, 1, 2, 3])))
+        call_case(ctx, I, "call%d" % i, random_argsets(I, rng), coq_cases, vi=1 if rng.random() < 0.5 else None, preludes=pres)
+    # fixed witnesses: every kind of rejected message, then calls with sharing / late tuples / computed copies
+    followers = late_tuple_calls(I)[:3] + computed_copy_calls(I)[:2]
+    for j, pre in enumerate(rejected_preludes(I)):
+        nm, argsets = followers[j % len(followers)]
+        call_case(ctx, I, nm, argsets, coq_cases, vi=None, chunk="one", preludes=(pre,))
+        call_case(ctx, I, nm + "/bytewise", argsets, coq_cases, vi=1, chunk="bytewise", preludes=(pre, rejected_preludes(I)[(j + 5) % 11]))
     for name, argsets in late_tuple_calls(I) + computed_copy_calls(I) + long_name_calls(I):
         call_case(ctx, I, name, argsets, coq_cases, vi=None, chunk="one")
         call_case(ctx, I, name + "/bytewise", argsets, coq_cases, vi=1, chunk="bytewise")
@@ -411,60 +430,129 @@ def finding_witnesses(ctx, I):
                      replay=dict(case=name, term=key, python='L=[]; d={}; T=(d,L); d["k"]=T; L.append(T)' if name.startswith("tuple-dictvalue") else name))
 
 
-def switch_case(ctx, I, i, switch_cases):
+VOCAB_POOL = [b"list", b"tuple", b"dict", b"unicode", b"reference", b"boolean", b"none", b"set", b"immutable-set", b"copyable",
+              b"decimal", b"verif.c01.A", b"x", b"y", b"a", b"", b"set-vocab", b"items", b"count", b"v"]
+
+
+def table_of(words):
+    """what Banana.setOutgoingVocabulary / populateVocabTable make of a word list: dict(zip(words, range(len(words)))) -- a word
+    mentioned twice keeps its LAST position and leaves the earlier index unused; returned as (word, index) sorted by index"""
+    d = dict(zip(words, range(len(words))))
+    return sorted(d.items(), key=lambda kv: kv[1])
+
+
+def random_words(rng):
+    """arbitrary word lists: duplicates (gaps in the index range), empty, one word many times"""
+    k = rng.choice([0, 1, 2, 3, 5, 8, 12])
+    r = rng.random()
+    if r < 0.2:
+        ws = list(VOCAB_POOL)
+        rng.shuffle(ws)
+        return ws[:k]
+    if r < 0.3 and k:
+        return [rng.choice(VOCAB_POOL)] * k
+    small = [rng.choice(VOCAB_POOL) for _ in range(max(1, k // 2))]
+    return [rng.choice(small) for _ in range(k)]
+
+
+WORD_LISTS = [
+    [b"list", b"dict", b"tuple", b"list", b"set"],            # index 0 unused
+    [b"list", b"list"], [b"list", b"list", b"list", b"dict"],   # leading gaps
+    [b"dict", b"list", b"tuple", b"list"],                     # gap in the middle
+    [b"x", b"list", b"dict", b"x", b"unicode", b"dict", b"copyable", b"verif.c01.A", b"x"],
+    [], [b""], [b"", b"list", b""], [b"set-vocab", b"list", b"set-vocab"],
+    [b"tuple", b"reference", b"list", b"dict", b"set", b"immutable-set", b"unicode", b"none", b"boolean", b"copyable", b"decimal"],
+]
+
+
+def switch_family(I):
+    """fixed witnesses: every word list above installed between graphs that use the words"""
+    out = []
+
+    def graph(k):
+        s = [k, "x"]
+        c = I.CA(); c.x = [b"x", "list"]; c.v = (s, s)
+        return [s, {"a": s, "x": (1, [s]), b"list": {2, 3}}, (s, "list", b"dict", None, True), c, frozenset([k])]
+    for i, w in enumerate(WORD_LISTS):
+        out.append(("words%d" % i, [graph(1), graph(2)], [w], None))
+        out.append(("words%d-after-v1" % i, [graph(1), graph(2), graph(3)], [w, WORD_LISTS[(i + 3) % len(WORD_LISTS)]], "v1"))
+        out.append(("words%d-initial" % i, [graph(1), graph(2)], [[b"dict", b"list"]], w))
+    return out
+
+
+def switch_case(ctx, I, name, switch_cases, objs=None, wordlists=None, initial=None):
+    """objects sent through one storage Banana with the outgoing vocabulary replaced (setOutgoingVocabulary, arbitrary word
+    lists) between every two of them"""
     rng = ctx.rng
-    g1 = I.gen_graph(rng, rng.choice([1, 2, 4, 8]), 64)
-    g2 = I.gen_graph(rng, rng.choice([1, 2, 4, 8]), 64)
-    if rng.random() < 0.4 and isinstance(g1, list):
-        g2 = [g2, g1]          # the storage root is one scope: the second object may refer to the first
-    pool = [b"list", b"tuple", b"dict", b"unicode", b"reference", b"boolean", b"none", b"set", b"immutable-set", b"copyable",
-            b"decimal", b"verif.c01.A", b"x", b"y", b"a", b"", b"set-vocab"]
-    rng.shuffle(pool)
-    tbl0 = vocab_v1() if rng.random() < 0.5 else []
-    tbl1 = pool[:rng.randrange(0, len(pool))]
+    I.KEEP.clear()
+    if objs is None:
+        k = rng.choice([2, 2, 3, 4])
+        objs = [I.gen_graph(rng, rng.choice([1, 2, 4, 8]), 64) for _ in range(k)]
+        if rng.random() < 0.4 and isinstance(objs[0], list):
+            objs[-1] = [objs[-1], objs[0]]          # the storage root is one scope: a later object may refer to an earlier one
+        wordlists = [random_words(rng) for _ in range(k - 1)]
+        initial = "v1" if rng.random() < 0.4 else (random_words(rng) if rng.random() < 0.5 else None)
+    words0 = vocab_v1() if initial == "v1" else (initial or [])
+    tbl0 = table_of(words0)
+    tbls = [table_of(w) for w in wordlists]
     try:
         scopes = [{}]
-        t1, n1 = I.canon_py(g1, 0, scopes)
-        t2, n2 = I.canon_py(g2, n1 + 1, scopes)     # the set-vocab sequence takes one OPEN number
+        terms, starts, n = [], [], 0
+        for o in objs:
+            t, n2 = I.canon_py(o, n, scopes)
+            terms.append(t)
+            starts.append(n)
+            n = n2 + 1                               # each set-vocab sequence takes one OPEN number
     except (I.Unsupported, RecursionError):
         return
-    if I.deferred_hazards([t1], 0) or I.deferred_hazards([t2], n1 + 1):
+    if any(I.deferred_hazards([t], st) for t, st in zip(terms, starts)):
         return
-    key = [I.term_coq(t1), I.term_coq(t2)]
-    ctx.case(dict(sw=key, t0=len(tbl0), t1=[x.hex() for x in tbl1]), nontrivial=True)
-    ctx.hist("switch_table_size", len(tbl1))
-    b = I.new_sender(tbl0 or None)
-    err = I.send_obj(b, g1)
-    if not err:
-        b.setOutgoingVocabulary(list(tbl1))
-        I.E.turn()
-        err = I.send_obj(b, g2)
+    key = [I.term_coq(t) for t in terms]
+    tdesc = [[w.decode("latin-1") for w in ws] for ws in wordlists]
+    ctx.case(dict(sw=key, t0=[w.hex() for w in words0], t1=tdesc), nontrivial=True)
+    ctx.hist("switch_table_gaps", sum(1 for ws in wordlists if len(set(ws)) != len(ws)))
+    b = I.new_sender(words0 if words0 else None)
+    err = None
+    for j, o in enumerate(objs):
+        if j:
+            with I.E.quiet():
+                try:
+                    b.setOutgoingVocabulary(list(wordlists[j - 1]))
+                except Exception as e:
+                    err = "setOutgoingVocabulary raised %s: %s" % (type(e).__name__, e)
+                I.E.turn()
+        err = err or I.send_obj(b, o)
+        if err:
+            break
     if err:
-        ctx.fail(sig_for_failure("send", err, set()), "object graph could not be serialized around a vocabulary switch: %s" % err,
-                 replay=dict(case="switch%d" % i, term=key, error=err))
+        ctx.fail("oracle/vocab-switch/send-failed" if "Violation" not in err or True else "", "object graphs could not be serialized around a "
+                 "vocabulary switch: %s; word lists %r (initial %r)" % (err, tdesc, initial if initial == "v1" else words0),
+                 replay=dict(case=name, term=key, error=err, words=tdesc))
         return
     data = bytes(b.transport.out)
     for how in ("one", "bytewise", "random"):
         cuts = I.chunkings(rng, len(data), how)
-        r = I.receive(data, cuts, tbl0 or None)
+        r = I.receive(data, cuts, words0 if words0 else None)
         ctx.traces += 1
         if r[0] != "ok":
             ctx.fail("oracle/receive-failed/long-copyable-name" if "STRING token is too long" in r[1] else
-                     "oracle/vocab-switch/receive-failed", "stream with a vocabulary table replaced mid-stream could not be unserialized "
-                     "(%s, chunking %s): %s; new table %r" % (r[0], how, r[1], tbl1),
-                     replay=dict(case="switch%d" % i, term=key, table=[x.hex() for x in tbl1], data=data.hex()[:4000], cuts=cuts[:50]))
+                     "oracle/vocab-switch/receive-failed", "stream with the vocabulary table replaced mid-stream could not be unserialized "
+                     "(%s, chunking %s): %s; word lists %r (initial %r); graphs %s" % (r[0], how, r[1], tdesc, initial if initial == "v1" else words0,
+                                                                                      " ; ".join(key)[:500]),
+                     replay=dict(case=name, term=key, words=tdesc, data=data.hex()[:4000], cuts=cuts[:50]))
             return
-        d = I.oracle_iso([g1, g2], r[1])
+        d = I.oracle_iso(objs, r[1])
         if d:
-            if I.tuple_ref_after_dict_value_ref([t1], 0) or I.tuple_ref_after_dict_value_ref([t2], n1 + 1):
+            if any(I.tuple_ref_after_dict_value_ref([t], st) for t, st in zip(terms, starts)):
                 ctx.fail("oracle/graph-changed/tuple-ref-after-dict-value-ref", "round trip changed the graph: %s; terms %s" % (d, key),
-                         replay=dict(case="switch%d" % i, term=key))
+                         replay=dict(case=name, term=key))
                 return
-            ctx.fail("oracle/vocab-switch/" + oracle_sig(d), "vocabulary switch changed the graph (chunking %s): %s; new table %r" % (how, d, tbl1),
-                     replay=dict(case="switch%d" % i, term=key, table=[x.hex() for x in tbl1], data=data.hex()[:4000]))
+            ctx.fail("oracle/vocab-switch/" + oracle_sig(d), "vocabulary switch changed the graph (chunking %s): %s; word lists %r (initial %r); "
+                     "graphs %s" % (how, d, tdesc, initial if initial == "v1" else words0, " ; ".join(key)[:500]),
+                     replay=dict(case=name, term=key, words=tdesc, data=data.hex()[:4000]))
             return
     ctx.hist("outcome", "delivered-across-vocab-switch")
-    switch_cases.append(dict(tbl0=tbl0, t1=t1, tbl1=tbl1, t2=t2, data=data))
+    switch_cases.append(dict(tbl0=tbl0, terms=terms, tbls=tbls, data=data))
 
 
 def random_argsets(I, rng):
@@ -483,7 +571,76 @@ def random_argsets(I, rng):
     return [first, second]
 
 
-def call_case(ctx, I, name, argsets, coq_cases, vi=None, chunk=None):
+def nested_junk(I, rng=None, k=0):
+    """containers nested inside one another, with sharing, references and pass-by-copy objects: what a discarded part looks like"""
+    s = [k, [k + 1]]
+    c = I.CA(); c.v = [s, (s,)]
+    fixed = [[[s], {"a": [s, (1, [2, {3}])]}, (s, [c], frozenset([1]))], {"k": [[[]]], "m": (s, s)}, ([], ([],), {"x": {}}), c, [I.Basket([1, 2], s)]]
+    if rng is None:
+        return fixed[k % len(fixed)]
+    g = I.gen_graph(rng, rng.choice([2, 4, 8]), 16)
+    return [g, fixed[rng.randrange(len(fixed))]]
+
+
+def rejected_preludes(I, rng=None):
+    """[(description, method, args, kwargs, direction)]: messages the RECEIVER rejects part-way (schema Violation), whose
+    rejected and discarded parts contain nested containers.  direction 'call': the callee rejects an argument;
+    'answer': the caller rejects the returned value."""
+    J = lambda k: nested_junk(I, rng, k)
+    return [
+        ("first-arg-not-int", "strict", (J(0), J(1), J(2)), {}, "call"),
+        ("first-arg-text", "strict", ("no", J(1), [J(2), J(3)]), {}, "call"),
+        ("second-arg-list-of-lists", "strict2", (J(0), [[1], [2, [3]]], J(4)), {}, "call"),
+        ("second-arg-list-with-late-bad-item", "strict2", ([1], [1, 2, 3, [4, [5]], 6], J(2)), {}, "call"),
+        ("second-arg-dict", "strict2", (1, {"a": [1]}, J(3)), {}, "call"),
+        ("kw-dict-bad-value", "strictkw", (), {"x": J(1), "y": {1: [2, [3]], 4: 5}, "z": J(0)}, "call"),
+        ("kw-dict-bad-key", "strictkw", (), {"x": 0, "y": {(1, (2,)): 3}, "z": J(2)}, "call"),
+        ("copyable-where-int", "strict", (J(3), 1, 2), {}, "call"),
+        ("result-not-int", "ret_int", (J(0),), {}, "answer"),
+        ("result-list-bad-item", "ret_list", ([1, 2, [3, [4]], 5],), {}, "answer"),
+        ("result-list-of-junk", "ret_list", ([J(1), J(2)],), {}, "answer"),
+    ]
+
+
+COUNTER_CASES = []       # (direction, bytes of one rejected message, how far the receiver's objectCounter moved)
+
+
+def run_prelude(ctx, I, P, pre, rng, chunk):
+    """send one message that the receiver must reject; -> True if it was rejected cleanly and the connection survived"""
+    desc, meth, a, kw, direction = pre
+    rr = P.rr_untyped if direction == "call" else P.rr_typed
+    res = []
+    with I.E.quiet():
+        try:
+            rr.callRemote(meth, *a, **kw).addBoth(res.append)
+        except Exception as e:
+            res.append(e)
+        I.E.turn()
+    for _ in range(6):
+        c0, k0 = P.callee.objectCounter, P.caller.objectCounter
+        d1 = P.pump(P.caller, P.callee, rng, chunk or "random")
+        d2 = P.pump(P.callee, P.caller, rng, chunk or "random")
+        for d_, delta in ((d1, P.callee.objectCounter - c0), (d2, P.caller.objectCounter - k0)):
+            if d_ and len(d_) < 3000 and len(COUNTER_CASES) < 400:
+                COUNTER_CASES.append((direction + ":" + desc, d_, delta))
+        if not d1 and not d2:
+            break
+    ctx.traces += 1
+    if P.callee.objectCounter != P.caller.openCount or P.caller.objectCounter != P.callee.openCount:
+        ctx.fail("oracle/object-numbering-out-of-step", "after a message rejected by the receiver's schema (%s: %s) the receiver numbers "
+                 "incoming objects from %d while the sender is at %d (other direction: %d / %d): later references resolve to the wrong objects"
+                 % (direction, desc, P.callee.objectCounter, P.caller.openCount, P.caller.objectCounter, P.callee.openCount),
+                 replay=dict(prelude=desc, method=meth, args=repr((a, kw))[:1200]))
+    rejected = bool(res) and isinstance(res[0], I.Failure) and "Violation" in res[0].type.__name__
+    ctx.hist("prelude", "%s:%s" % (direction, "rejected" if rejected else ("delivered" if res and not isinstance(res[0], I.Failure) else "other")))
+    if P.t_caller.closed or P.t_callee.closed:
+        ctx.fail("oracle/rejected-message-drops-connection", "a message rejected by the receiver's schema (%s: %s) dropped the connection"
+                 % (direction, desc), replay=dict(prelude=desc, args=repr((a, kw))[:1200]))
+        return False
+    return rejected
+
+
+def call_case(ctx, I, name, argsets, coq_cases, vi=None, chunk=None, preludes=()):
     """successive calls on one connection (then one echo whose value comes back in an answer scope): sharing inside each
     call is kept, nothing is shared between calls, every pass-by-copy instance arrives with its own state"""
     rng = ctx.rng
@@ -496,6 +653,13 @@ def call_case(ctx, I, name, argsets, coq_cases, vi=None, chunk=None):
                 I.canon_py(x, 0, [{}])
     except (I.Unsupported, RecursionError):
         return
+    # messages that the receiver rejects and partly discards come first on this connection
+    for pre in preludes:
+        if not run_prelude(ctx, I, P, pre, rng, chunk):
+            if P.t_caller.closed or P.t_callee.closed:
+                return
+    if preludes:
+        name = name + " after rejected " + "+".join(p[0] for p in preludes)
     n0 = P.caller.openCount
     sent_bytes = []
     terms = []
@@ -519,7 +683,8 @@ def call_case(ctx, I, name, argsets, coq_cases, vi=None, chunk=None):
         ctx.traces += 1
     if I.deferred_hazards(terms, n0):
         return
-    shape = " ; ".join(I.term_coq(t) for t in terms)[:900]
+    shape = (("[after rejected: %s] " % ", ".join("%s %s%r" % (p[4], p[1], (p[2], p[3])) for p in preludes)[:500]) if preludes else "") + \
+        " ; ".join(I.term_coq(t) for t in terms)[:900]
     if len(P.target.calls) != len(argsets) or P.t_caller.closed or P.t_callee.closed:
         ctx.fail("oracle/call-not-delivered", "a call whose arguments share objects was not delivered (delivered %d of %d, connection %s); calls: %s"
                  % (len(P.target.calls), len(argsets), "closed" if P.t_caller.closed or P.t_callee.closed else "open", shape),
@@ -649,22 +814,34 @@ Definition chk (c : bool * Z * list obj * vtable * list Z * bool) : Z :=
 """
 
 VCHK = ZB + """
-Definition vchk (c : vtable * obj * vtable * obj * list Z) : Z :=
-  let '(tbl0, t1, tbl1, t2, bs) := c in
-  let n1 := opens t1 in
-  let items := map ITok (slice 0 t1) ++ [ISetVocab n1 tbl1] ++ map ITok (slice (n1 + 1) t2) in
+(* objects t0 .. tk sent one after the other with the table replaced (ISetVocab) between every two of them *)
+Fixpoint build (n : Z) (ts : list obj) (tbls : list vtable) : list item * list Z :=
+  match ts with
+  | [] => ([], [])
+  | t :: r =>
+    match r, tbls with
+    | _ :: _, tb :: tbs =>
+      let '(its, sts) := build (n + opens t + 1) r tbs in
+      (map ITok (slice n t) ++ [ISetVocab (n + opens t) tb] ++ its, n :: sts)
+    | _, _ => (map ITok (slice n t), [n])
+    end
+  end.
+Fixpoint canon_each (h : heap) (ts : list obj) (sts : list Z) (vs : list value) : bool :=
+  match ts, sts, vs with
+  | [], [], [] => true
+  | t :: tr, n :: nr, v :: vr =>
+    match canon (S (size t)) h n v with Some (o, _) => obj_eqb o t && canon_each h tr nr vr | None => false end
+  | _, _, _ => false
+  end.
+Definition vchk (c : vtable * list obj * list vtable * list Z) : Z :=
+  let '(tbl0, ts, tbls, bs) := c in
+  let '(items, sts) := build 0 ts tbls in
   let wire := sender_wire tbl0 items in
   let b_send := match encode_stream wire with Ok b => list_eqb b bs | Exc _ => false end in
   let b_recv := match decode bs with
                 | (w, EndClean) =>
                   match receiver_view (List.length w) tbl0 w with
-                  | Some tk =>
-                    match unslice true 0 tk with
-                    | Some (h, [v1; v2]) =>
-                      match canon (S (size t1)) h 0 v1, canon (S (size t2)) h (n1 + 1) v2 with
-                      | Some (o1, _), Some (o2, _) => obj_eqb o1 t1 && obj_eqb o2 t2
-                      | _, _ => false end
-                    | _ => false end
+                  | Some tk => match unslice true 0 tk with Some (h, vs) => canon_each h ts sts vs | None => false end
                   | None => false end
                 | _ => false end in
   (if b_send then 4 else 0) + (if b_recv then 8 else 0).
@@ -718,11 +895,11 @@ def correspond(ctx, I, coq_cases, switch_cases):
                          replay=dict(case=c["name"], code=v, term=[term_coq(t) for t in c["terms"]], data=c["data"].hex()[:4000],
                                      vocab=bool(c["voc"])), has_input=False)
     # vocabulary switch
-    for lo in range(0, len(switch_cases), 150):
-        shard = switch_cases[lo:lo + 150]
-        rows = ["(%s, %s, %s, %s, %s)" % (coq_tbl(c["tbl0"]), term_coq(c["t1"]), coq_tbl(c["tbl1"]), term_coq(c["t2"]), coq_Zs(c["data"]))
-                for c in shard]
-        body = "Open Scope Z_scope.\n" + VCHK + "Definition cases : list (vtable * obj * vtable * obj * list Z) := [\n" + ";\n".join(rows) + \
+    for lo in range(0, len(switch_cases), 100):
+        shard = switch_cases[lo:lo + 100]
+        rows = ["(%s, [%s], [%s], %s)" % (coq_pairs(c["tbl0"]), "; ".join(term_coq(t) for t in c["terms"]),
+                                         "; ".join(coq_pairs(t) for t in c["tbls"]), coq_Zs(c["data"])) for c in shard]
+        body = "Open Scope Z_scope.\n" + VCHK + "Definition cases : list (vtable * list obj * list vtable * list Z) := [\n" + ";\n".join(rows) + \
                "].\nEval vm_compute in map vchk cases.\n"
         try:
             (vals,) = ctx.coq_eval("C01_switch_%d" % lo, body, requires=REQ)
@@ -734,9 +911,26 @@ def correspond(ctx, I, coq_cases, switch_cases):
             if v != 12:
                 nbad += 1
                 sig = "correspondence/vocab-switch-sender" if not v & 4 else "correspondence/vocab-switch-receiver"
-                ctx.fail(sig, "model and implementation disagree on a stream with a vocabulary switch (code %d): tables %d -> %r; terms %s ; %s"
-                         % (v, len(c["tbl0"]), c["tbl1"], term_coq(c["t1"])[:300], term_coq(c["t2"])[:300]),
-                         replay=dict(code=v, t1=term_coq(c["t1"]), t2=term_coq(c["t2"]), tbl1=[x.hex() for x in c["tbl1"]],
-                                     data=c["data"].hex()[:4000]), has_input=False)
+                ctx.fail(sig, "model and implementation disagree on a stream with vocabulary switches (code %d): tables %r -> %r; terms %s"
+                         % (v, c["tbl0"][:6], c["tbls"], " ; ".join(term_coq(t) for t in c["terms"])[:500]),
+                         replay=dict(code=v, terms=[term_coq(t) for t in c["terms"]], tbls=repr(c["tbls"]), data=c["data"].hex()[:4000]),
+                         has_input=False)
+    # rejected messages: the receiver's counter moves by the number of OPEN tokens in the message, discarded or not
+    if COUNTER_CASES:
+        rows = ["(%s, %d)" % (coq_Zs(d_), delta) for _, d_, delta in COUNTER_CASES]
+        body = ("Open Scope Z_scope.\nDefinition cases : list (list Z * Z) := [\n" + ";\n".join(rows) + "].\n"
+                "Eval vm_compute in map (fun c => match decode (fst c) with (w, EndClean) => count_opens w =? snd c | _ => false end) cases.\n")
+        try:
+            (vals,) = ctx.coq_eval("C01_counters", body, requires=REQ)
+        except common.CoqEvalError as e:
+            ctx.fail("correspondence-broken", "the model could not be evaluated (counters): " + str(e)[-1500:], has_input=False)
+            return
+        for (desc, d_, delta), v in zip(COUNTER_CASES, vals):
+            total += 1
+            if v is not True:
+                nbad += 1
+                ctx.fail("correspondence/object-counter", "a (partly rejected) message moved the receiver's objectCounter by %d, the model says "
+                         "by the number of its OPEN tokens: %s" % (delta, desc), replay=dict(message=d_.hex()[:3000], delta=delta, what=desc),
+                         has_input=False)
     ctx.extra["correspondence_cases"] = total
     ctx.extra["correspondence_disagreements"] = nbad
